@@ -314,4 +314,6 @@ func main() {
 	writeIfChanged(filepath.Join(outDir, "Ctx.lean"), ctx)
 	writeIfChanged(filepath.Join(outDir, "Consts.lean"), consts)
 	writeIfChanged(filepath.Join(outDir, "Guards.lean"), guards)
+	// C09 (extract/lifecycle.go): never exits; a problem is recorded inside the generated file
+	writeIfChanged(filepath.Join(outDir, "Lifecycle.lean"), genLifecycle(repoRoot))
 }
